@@ -61,6 +61,24 @@ fn main() {
             let code = h.join().unwrap_or(3);
             std::process::exit(code);
         },
+        "explain" => {
+            // diagnosis aid: how the reference reads a source text, and what the implementation builds from it
+            observe::install_panic_hook();
+            for src in &args[2..] {
+                match refmodel::lex::lex(src) {
+                    Ok(l) => {
+                        let (class, ast) = refmodel::parse::classify(&l.toks);
+                        println!("source   {:?}\ntokens   {:?} (unclaimed word: {})\nclass    {:?}\nast      {}", src, l.toks, l.unclaimed, class, ast.map(|a| a.sx()).unwrap_or_default());
+                    },
+                    Err(e) => println!("source   {:?}\nlexer    {:?}", src, e),
+                }
+                match api::build(src) {
+                    api::Built::Tree(t) => println!("built    {:?}\neval     {}", t, api::eval_str_mut(src, &mut api::Ctx::new()).show()),
+                    api::Built::Err(_, d) => println!("built    Err({})", d),
+                    api::Built::Panic(p) => println!("built    PANIC {}", p),
+                }
+            }
+        },
         other => {
             eprintln!("unknown command {}", other);
             std::process::exit(2);
